@@ -103,7 +103,9 @@ package inhibit
 //@   at call store.Alerts).Set assert [cache-only-sources] arg1 == a && ret("Matchers).Matches")
 //@   at call InhibitRule).updateIndex assert [index-what-was-cached] arg1 == a && called("store.Alerts).Set") && ret("store.Alerts).Set") == nil
 //@   ensures [every-cached-is-indexed] count("InhibitRule).updateIndex") == count("store.Alerts).Set") - count("Logger).Error")
+//@   ensures [every-rule-considered] count("Matchers).Matches") == len(ih.rules) && count("store.Alerts).Set") == counttrue0("Matchers).Matches")
 //@   loop 1 invariant count("InhibitRule).updateIndex") == count("store.Alerts).Set") - count("Logger).Error")
+//@   loop 1 invariant rangeindex < len(ih.rules) && count("Matchers).Matches") == rangeindex + 1 && count("store.Alerts).Set") == counttrue0("Matchers).Matches")
 //@   noeffect store.Alerts).Set InhibitRule).updateIndex
 
 // C03: the verdict. An alert is inhibited exactly when, for some rule whose target side it matches, a cached source
@@ -118,7 +120,11 @@ package inhibit
 //@   after call Tracer).Start assume res0 != nil && res1 != nil
 //@   ensures [existential-rule] result == (exists k int :: 0 <= k && k < len(ih.rules) && ruleInhibits(ih.rules[k], lset, first("time.Now")))
 //@   at call SetInhibited assert [marker-only-when-inhibited] len(arg2) > 0 ==> called("InhibitRule).hasEqual") && ret1("InhibitRule).hasEqual")
-//@   loop 1 invariant rangeindex < len(ih.rules) && called("time.Now") && first("time.Now") == now && len(inhibitedBy) == 0
+//@   at call SetInhibited assert [marker-for-this-alert] arg1 == fpL(lset)
+//@   at call SetInhibited assert [marker-names-an-inhibitor] (called("InhibitRule).hasEqual") && ret1("InhibitRule).hasEqual")) ==> len(arg2) > 0
+//@   at call SetInhibited assert [marker-present] called("FromContext") && ret1("FromContext")
+//@   ensures [marker-told] called("FromContext") && ret1("FromContext") ==> called("SetInhibited")
+//@   loop 1 invariant rangeindex < len(ih.rules) && called("time.Now") && first("time.Now") == now && len(inhibitedBy) == 0 && (called("InhibitRule).hasEqual") ==> !ret1("InhibitRule).hasEqual"))
 //@   loop 1 invariant forall k int :: 0 <= k && k <= rangeindex ==> !ruleInhibits(ih.rules[k], lset, now)
 //@   noeffect RecordEvent SetInhibited FromContext
 
